@@ -325,7 +325,7 @@ def run(ctx):
             p, a, b = c
             cfg = curve_cfg(ctx, p, a, b)
             n = len([1 for x in range(p) for y in range(p) if (y * y - x ** 3 - a * x - b) % p == 0]) + 1
-            return ctx.table("curve/MC_Curve.tla", cfg, env={"KMAX": 2 * n + 1, "ASSOC": 1 if p <= 43 or not q else 0}, timeout=7200, workers=2)
+            return ctx.table("curve/MC_Curve.tla", cfg, env={"KMAX": 2 * n + 1, "ASSOC": 1 if p <= (43 if q else 79) else 0}, timeout=7200, workers=2)
         tabs = ctx.parallel([(lambda c=c: job(c)) for c in curves], workers=8)
         for tab in tabs:
             if not tab:
